@@ -1,8 +1,69 @@
-/- Driver handlers for area `ctx` (stub: replace `handle`). -/
+/- Driver handlers for area `ctx` (C09): one reused allowerContext fed a sequence of updates and checks. -/
 import VDriver.Util
+import VDriver.Auth
+import VModel.Auth
 namespace V.Driver.CtxOps
-open V V.Driver
+open V V.Json V.Driver V.Auth V.Driver.AuthOps
 
-def handle (_op : String) (_args : Array String) : Option String := none
+structure St where
+  provs : Array (List Event)
+  ctx : Option Ctx := none
+  cur : Nat := 0
+  outM : List String := []
+  outS : List String := []
+  bad : Option String := none
+
+def verdictOf (r : R Unit) : String :=
+  match r with
+  | .ok () => "ok"
+  | .error v => v.coarse
+
+def step (evs : Array Event) (s : St) (st : String) : St :=
+  if s.bad.isSome then s else
+  match st.toList with
+  | 'u' :: rest =>
+    let i := (String.ofList rest).toNat!
+    let p := Provider.ofEvents (s.provs[i]!) (i + 1)
+    match (s.ctx.getD {}).update p with
+    | .ok c => { s with ctx := some c, cur := i }
+    | .error v => { s with bad := some v.coarse }
+  | 'm' :: rest =>
+    match (String.ofList rest).splitOn ":" with
+    | [is, js] =>
+      let i := is.toNat!; let j := js.toNat!
+      { s with provs := s.provs.set! i (s.provs[i]! ++ [evs[j]!]) }
+    | _ => { s with bad := some "bad-op" }
+  | 'a' :: rest =>
+    match (String.ofList rest).splitOn ":" with
+    | [js, sig] =>
+      let j := js.toNat!
+      match s.ctx with
+      | none => { s with bad := some "bad-op" }
+      | some c =>
+        let m := verdictOf (c.allowed evs[j]! (sig == "1"))
+        -- specification: the verdict of a fresh check against the provider as it is NOW
+        let fresh := (allowedFreshNoValid evs[j]! (Provider.ofEvents (s.provs[s.cur]!) (s.cur + 1)) (sig == "1")).coarse
+        { s with outM := s.outM ++ [m], outS := s.outS ++ [fresh] }
+    | _ => { s with bad := some "bad-op" }
+  | _ => { s with bad := some "bad-op" }
+
+def handle (op : String) (args : Array String) : Option String :=
+  match op, args.toList with
+  | "seq", [ver, provs, evs, steps] =>
+    let v := strBytes ver
+    let ps : Option (List (List Event)) := (provs.splitOn "|").mapM (fun p =>
+      if p == "-" || p == "" then some [] else parseEvArgs v (p.splitOn ","))
+    match ps, parseEvArgs v (evs.splitOn ",") with
+    | some ps, some es =>
+      let s := (steps.splitOn ",").foldl (step es.toArray) { provs := ps.toArray }
+      match s.bad with
+      | some b => some b
+      | none =>
+        let m := ",".intercalate s.outM
+        let sp := ",".intercalate s.outS
+        if s.outM.any (fun x => x.startsWith "skip") || s.outS.any (fun x => x.startsWith "skip") then some "skip:unmodelled step"
+        else some (m ++ "\t" ++ sp)
+    | _, _ => some "bad-op"
+  | _, _ => none
 
 end V.Driver.CtxOps
